@@ -9,6 +9,7 @@ drv_serve ops (one line each):
       bg:<t>   stop:<t>          thread t becomes / stops being a background serving thread
       peer:<seq>:<0|1>:<val>     the peer answered seq (reply / exception) with payload val
       tick:<d>                   virtual time advanced by d
+      eof                        the peer closed the stream
       run:<t>:<label>[:<obs>…]   thread t executed the line `label` with the observed result
       chk:<t>:<R|->              the harness saw client t blocked in poll()/on the condition, its result ready or not
     answer: `ok res=… reg=… dc=… now=… bl=…`   or   `reject <index> <token> model=<label[:obs]> pc=<pc>`
@@ -26,7 +27,7 @@ def showOptT (o : Option Nat) : String := match o with | none => "inf" | some d 
 
 def pcName : PC → String
   | .idle => "idle" | .c1 => "c1" | .c2 => "c2" | .c3 => "c3" | .w0 => "w0" | .s0 => "s0" | .s1 => "s1"
-  | .s2 => "s2" | .s2w => "s2w" | .zz => "zz" | .s2r => "s2r" | .s3 => "s3" | .p0 => "p0" | .r0 => "r0"
+  | .s2 => "s2" | .s2w => "s2w" | .zz => "zz" | .s2r => "s2r" | .s3 => "s3" | .p0 => "p0" | .x0 => "x0" | .r0 => "r0"
   | .n0 => "n0" | .n1 => "n1" | .n2 => "n2" | .d0 => "d0" | .d1 => "d1" | .d2 => "d2" | .d3 => "d3"
   | .d4 => "d4" | .d5 => "d5" | .w9 => "w9" | .w10 => "w10" | .b0 => "b0" | .bS => "bS"
 
@@ -44,7 +45,7 @@ def expect (s : St) (t : Tid) : String :=
   match l.pc with
   | .idle => "idle"
   | .c1 => s!"c1:{l.seq}"
-  | .c2 => s!"c2:{l.seq}"
+  | .c2 => if s.closed then s!"c2:{l.seq}:closed" else s!"c2:{l.seq}"
   | .c3 => s!"c3:{showOptT (l.tmo.map (s.now + ·))}"
   | .w0 => if !(s.cells l.seq).ready && !expiredAt (s.cells l.seq).ttl s.now then "w0:loop" else "w0:exit"
   | .s0 => s!"s0:{showOptT (if l.bg then some s.now else (s.cells l.seq).ttl)}"
@@ -54,14 +55,15 @@ def expect (s : St) (t : Tid) : String :=
   | .zz => if t ∉ s.waiters then "zz:notified" else "zz:timeout"
   | .s2r => "s2r"
   | .s3 => "s3"
-  | .p0 => match s.chan with
+  | .p0 => if s.closed then "p0:eof" else match s.chan with
     | f :: _ => s!"p0:{f.id}"
-    | [] => "p0:none"
+    | [] => if s.eof then "p0:eof" else "p0:none"
+  | .x0 => if s.closed then "x0:again" else "x0:first"
   | .r0 => "r0"
   | .n0 => "n0"
   | .n1 => "n1:" ++ (if s.waiters.isEmpty then "-" else "+".intercalate ((sortNats s.waiters).map toString))
   | .n2 => "n2"
-  | .d0 => if l.data.isSome then "d0:data" else "d0:none"
+  | .d0 => if l.data.isSome then "d0:data" else if l.raising then "d0:raise" else "d0:none"
   | .d1 => match l.data with
     | some f => s!"d1:{f.seq}:" ++ (if (s.cells f.seq).reg then "cb" else "nocb")
     | none => "d1:?"
@@ -85,6 +87,7 @@ def expect (s : St) (t : Tid) : String :=
 
 def showOutcome : Outcome → String
   | .timeout => "timeout"
+  | .eof => "eof"
   | .value e o => "value:" ++ (match e with | none => "n" | some b => b01 b) ++ ":" ++
                   (match o with | none => "None" | some v => toString v)
 
@@ -126,6 +129,10 @@ def feed (a : Acc) (tok : String) : Except String Acc :=
       | some s' => .ok { a with s := s' }
       | none => .error "peer-not-outstanding"
     | _, _, _ => .error "bad-op"
+  | ["eof"] =>
+    match step a.s .peerEof with
+    | some s' => .ok { a with s := s' }
+    | none => .error "eof-twice"
   | ["tick", d] =>
     match pNat d with
     | some d => match step a.s (.tick d) with
@@ -151,7 +158,7 @@ def feed (a : Acc) (tok : String) : Except String Acc :=
       | some s' =>
         let l' := s'.loc t
         let a' := { a with s := s' }
-        if (a.s.loc t).pc ≠ .idle ∧ l'.pc = .idle then
+        if (a.s.loc t).pc ≠ .idle ∧ l'.pc = .idle ∧ (a.s.loc t).bg = false then
           match l'.result with
           | some r => .ok { a' with results := a'.results ++ [(t, l'.seq, showOutcome r)] }
           | none => .ok a'
